@@ -46,7 +46,8 @@ class BState(VState):
         self.shiftT = None   # I[T] = J − shiftT
         self.jknown = True
         self.vT = None       # symbol held by V[T]
-        self.bs = {}         # Result local -> (base, lo, hi, needle term)
+        self.bs = {}         # Result local -> record {base, lo, hi, needle, p, arm} of a binary_search result
+        self.bsbool = {}     # bool local -> (record, arm meant by `true`)
         self.itm = {}        # IterMut local -> (base, lo, hi)
         self.clos = {}       # closure local -> (key, [abstract captured values])
         self.selem = {}      # &mut element local -> (base, pos)
@@ -224,13 +225,23 @@ class BulkProof:
                 st.selem[k] = (st.selem[k][0], a)
             else:
                 del st.selem[k]
+        seen_rec = set()
         for k in list(st.bs):
-            base, lo, hi, nd = st.bs[k]
-            a, c, n2 = rt(lo), rt(hi), rt(nd)
-            if ok(a, c, n2):
-                st.bs[k] = (base, a, c, n2)
+            rec = st.bs[k]
+            if id(rec) in seen_rec:
+                continue
+            seen_rec.add(id(rec))
+            a, c, n2, pp = rt(rec["lo"]), rt(rec["hi"]), rt(rec["needle"]), rt(rec["p"])
+            if ok(a, c, n2, pp):
+                rec["lo"], rec["hi"], rec["needle"], rec["p"] = a, c, n2, pp
             else:
+                rec["dead"] = True
+        for k in list(st.bs):
+            if st.bs[k].get("dead"):
                 del st.bs[k]
+        for k in list(st.bsbool):
+            if st.bsbool[k][0].get("dead"):
+                del st.bsbool[k]
         for m in (st.pending, st.bools, st.lin, st.ordcmp):
             for k in list(m):
                 if any(isinstance(t, tuple) and len(t) == 2 and t[0] == x for t in m[k] if isinstance(t, tuple)):
@@ -243,7 +254,7 @@ class BulkProof:
                 st.jknown = False
 
     def forget_local(self, st, l):
-        for m in (st.sl, st.bconst, st.bs, st.itm, st.clos, st.selem, st.val, st.elem, st.subview, st.refint, st.ordcmp,
+        for m in (st.sl, st.bconst, st.bs, st.bsbool, st.itm, st.clos, st.selem, st.val, st.elem, st.subview, st.refint, st.ordcmp,
                   st.discr_of, st.pending, st.bools, st.lin):
             m.pop(l, None)
         for k in [k for k in st.tup if k[0] == l]:
@@ -417,33 +428,95 @@ class BulkProof:
         self._closure_cache[key] = res
         return res
 
+    def closure_identity(self, st, local, op):
+        """is the closure operand `|i| i` ?"""
+        key = None
+        if local is not None and local in st.clos:
+            key = st.clos[local][0]
+        elif op["k"] == "const":
+            txt = op["c"].get("text", "")
+            ty = op["c"].get("ty", "")
+            for cand in (ty, txt):
+                if "closure" in cand:
+                    key = cand
+        if key is None and local is not None:
+            ck = [f for f in self.b.local_flags(local) if f.startswith("closure:")]
+            key = ck[0][len("closure:"):] if ck else None
+        if key is None:
+            return False
+        cb = self.prog.find(key, required=False)
+        if cb is None:
+            for k2, b2 in (self.prog.bodies.items() if isinstance(self.prog.bodies, dict) else []):
+                if key in k2 or k2 in key:
+                    cb = b2
+        if cb is None or cb.arg_count != 2:
+            return False
+        live = sorted(cb.live_blocks())
+        if any(cb.term(bb)["k"] == "call" for bb in live):
+            return False
+        srcs = []
+        for bb in live:
+            for s_ in cb.blocks[bb]["stmts"]:
+                if s_["k"] == "assign" and s_["dst"]["l"] == 0 and not s_["dst"]["p"]:
+                    srcs.append(s_["rv"])
+        if len(srcs) != 1 or srcs[0]["k"] != "use" or srcs[0]["a"]["k"] == "const":
+            return False
+        pl = srcs[0]["a"]["pl"]
+        if pl["l"] == 2 and not pl["p"]:
+            return True
+        # via one temporary
+        for bb in live:
+            for s_ in cb.blocks[bb]["stmts"]:
+                if s_["k"] == "assign" and s_["dst"]["l"] == pl["l"] and not s_["dst"]["p"] and not pl["p"]:
+                    rv = s_["rv"]
+                    if rv["k"] == "use" and rv["a"]["k"] != "const" and rv["a"]["pl"]["l"] == 2 and not rv["a"]["pl"]["p"]:
+                        return True
+        return False
+
     def _eval_closure(self, cb, blocks):
+        return self._eval_linear(cb, blocks, None)
+
+    def _eval_linear(self, cb, blocks, opt_local, int_locals=()):
+        """symbolic evaluation of a straight-line block sequence that updates one `usize` through a reference x:
+        closure mode (opt_local None): x is parameter 2, captures are fields of parameter 1;
+        loop mode: x is the payload of `(_opt as Some).0`, every other integer local read is an outer (loop-invariant) value.
+        returns (coeff_x, {capture: coeff}, const) of the single value stored through x, or None"""
         env = {}
         pend = {}
         stored = []
+        if opt_local is None:
+            env[2] = ("xref",)
 
         def lin_add(a, c, sign):
-            if a is None or c is None:
-                return None
             out = dict(a)
             for k, v in c.items():
                 out[k] = out.get(k, 0) + sign * v
-            return {k: v for k, v in out.items() if v != 0 or k == "1"}
+            return {k: v for k, v in out.items() if v != 0}
 
         def place_val(pl):
             l, p = pl["l"], pl["p"]
-            if l == 2 and p == ["deref"]:
-                return ("lin", {"x": 1})
-            if l == 1 and len(p) == 2 and p[0] == "deref" and isinstance(p[1], dict) and "field" in p[1]:
-                return ("cap", p[1]["field"])
-            if l == 1 and len(p) == 1 and isinstance(p[0], dict) and "field" in p[0]:
-                return ("cap", p[0]["field"])
+            if opt_local is None and l == 1:
+                if len(p) == 2 and p[0] == "deref" and isinstance(p[1], dict) and "field" in p[1]:
+                    return ("cap", p[1]["field"])
+                if len(p) == 1 and isinstance(p[0], dict) and "field" in p[0]:
+                    return ("cap", p[0]["field"])
+                return None
+            if opt_local is not None and l == opt_local:
+                if len(p) == 2 and isinstance(p[0], dict) and "downcast" in p[0] and isinstance(p[1], dict) and p[1].get("field") == 0:
+                    return ("xref",)
+                return None
             if not p:
-                return env.get(l)
+                if l in env:
+                    return env[l]
+                if opt_local is not None and l in int_locals:
+                    return ("lin", {("cap", ("outer", l)): 1})
+                return None
             if p == ["deref"]:
                 v = env.get(l)
                 if v and v[0] == "cap":
                     return ("lin", {("cap", v[1]): 1})
+                if v and v[0] == "xref":
+                    return ("lin", {"x": 1})
                 return None
             if len(p) == 1 and isinstance(p[0], dict) and p[0].get("field") == 0 and l in pend:
                 return pend[l]
@@ -467,12 +540,19 @@ class BulkProof:
                 val = None
                 is_int_dst = True
                 if not dst["p"]:
-                    is_int_dst = any(f.startswith("uint:") for f in cb.local_flags(dst["l"])) and "ref" not in cb.local_flags(dst["l"])
+                    fl = cb.local_flags(dst["l"])
+                    is_int_dst = any(f.startswith("uint:") for f in fl) and "ref" not in fl
                 if rv["k"] == "use":
                     val = opval(rv["a"], is_int_dst)
                 elif rv["k"] == "ref":
-                    v = place_val(rv["pl"])
-                    val = v if v and v[0] == "cap" else None
+                    pl = rv["pl"]
+                    if pl["p"] == ["deref"] and env.get(pl["l"], (None,))[0] == "xref":
+                        val = ("xref",)
+                    elif opt_local is not None and not pl["p"] and pl["l"] in int_locals and pl["l"] not in env:
+                        val = ("cap", ("outer", pl["l"]))
+                    else:
+                        v = place_val(pl)
+                        val = v if v and v[0] in ("cap", "xref") else None
                 elif rv["k"] == "binop":
                     op = rv["op"]
                     base = op[:-len("WithOverflow")] if op.endswith("WithOverflow") else op
@@ -486,7 +566,7 @@ class BulkProof:
                         continue
                     val = r
                 if dst["p"]:
-                    if dst["l"] == 2 and dst["p"] == ["deref"]:
+                    if dst["p"] == ["deref"] and env.get(dst["l"], (None,))[0] == "xref":
                         stored.append(val)
                     else:
                         return None
@@ -502,6 +582,116 @@ class BulkProof:
         cx = lin.get("x", 0)
         caps = {k[1]: v for k, v in lin.items() if isinstance(k, tuple)}
         return (cx, caps, lin.get("1", 0))
+
+    # ---------------------------------------------------------------- loops over iter_mut()
+    def find_map_loops(self):
+        """natural loops of the form `for x in <IterMut> { *x = f(*x) }` (single straight-line body, no calls):
+        header → {iter local, Option local, exit block, body path}"""
+        b = self.b
+        loops = {}
+        for u in b.live_blocks():
+            for h in b.succ(u):
+                if b.dominates(h, u):
+                    body = {h, u}
+                    stack = [u]
+                    while stack:
+                        x = stack.pop()
+                        if x == h:
+                            continue
+                        for pr in b.preds(x):
+                            if pr not in body:
+                                body.add(pr)
+                                stack.append(pr)
+                    loops.setdefault(h, set()).update(body)
+        out = {}
+        for h, body in loops.items():
+            th = b.term(h)
+            if th["k"] != "call" or callee_name(th) != "next" or th.get("target") is None:
+                continue
+            it_local = None
+            a0 = self.oplocal(th["args"][0]) if th["args"] else None
+            cur = a0
+            for _ in range(4):
+                nxt_ = None
+                for s in b.blocks[h]["stmts"]:
+                    if s["k"] == "assign" and not s["dst"]["p"] and s["dst"]["l"] == cur and s["rv"]["k"] == "ref":
+                        nxt_ = s["rv"]["pl"]
+                if nxt_ is None:
+                    break
+                if not nxt_["p"]:
+                    it_local = nxt_["l"]
+                    break
+                if nxt_["p"] == ["deref"]:
+                    cur = nxt_["l"]
+                else:
+                    break
+            opt = th["dst"]["l"] if not th["dst"]["p"] else None
+            S = th["target"]
+            tS = b.term(S)
+            if it_local is None or opt is None or tS["k"] != "switch":
+                continue
+            succs = [x for x in b.succ(S)]
+            inside = [x for x in succs if x in body]
+            outside = [x for x in succs if x not in body and b.term(x)["k"] != "unreachable"]
+            if len(inside) != 1 or len(outside) != 1:
+                continue
+            none_tgt = [tgt for v, tgt in tS["arms"] if v == 0]
+            if none_tgt and none_tgt[0] != outside[0]:
+                continue
+            path = []
+            x = inside[0]
+            good = True
+            for _ in range(64):
+                if x == h:
+                    break
+                path.append(x)
+                nx = [y for y in b.succ(x) if y in body]
+                if len(nx) != 1 or b.term(x)["k"] in ("call", "switch"):
+                    good = False
+                    break
+                x = nx[0]
+            else:
+                good = False
+            if not good or set(path) | {h, S} != body:
+                continue
+            assigned = set()
+            for bb in path:
+                for s in b.blocks[bb]["stmts"]:
+                    if s["k"] == "assign" and not s["dst"]["p"]:
+                        assigned.add(s["dst"]["l"])
+            out[h] = dict(iter=it_local, opt=opt, exit=outside[0], path=path, assigned=assigned)
+        return out
+
+    def apply_loop(self, st, lp):
+        sl = st.itm.get(lp["iter"])
+        if sl is None:
+            raise Fail("loop over an iterator that is not a tracked iter_mut()")
+        base, lo, hi = sl
+        lin = self._eval_linear(self.b, lp["path"], lp["opt"], self.int_locals - lp["assigned"])
+        by = None
+        if lin is not None:
+            cx, caps, const = lin
+            if cx == 1 and len(caps) <= 1 and all(v == -1 for v in caps.values()) and const <= 0:
+                if caps:
+                    ci = list(caps)[0]
+                    if isinstance(ci, tuple) and ci[0] == "outer":
+                        by = (self.name(ci[1]), -const)
+                else:
+                    by = ("Z", -const)
+        self.rebase(st, base, lo, hi, by)
+
+    def rebase(self, st, base, lo, hi, by):
+        if base == "V":
+            if not (st.lt(("T", 0), lo) or st.le(hi, ("T", 0))):
+                st.vT = None
+            return
+        if by is None:
+            self.havoc_I(st, lo, hi)
+            self.notes.append("the update of the index slice is not a rebasing by a loop-invariant amount: range havocked")
+            return
+        if not self.icovers(st, lo, hi, "GE", by, None):
+            raise Fail("rebasing `*x -= c` may wrap below zero: not every index in the range is known ≥ c")
+        self.shift_I(st, lo, hi, by)
 
     # ---------------------------------------------------------------- statements
     def slice_write(self, st, base, pos, src_op):
@@ -575,8 +765,23 @@ class BulkProof:
                         self.set_int(st, l, av[1])
                         return
                 if pl and len(pl["p"]) == 2 and isinstance(pl["p"][0], dict) and "downcast" in pl["p"][0] and pl["l"] in st.bs:
+                    rec = st.bs[pl["l"]]
                     self.havoc_int(st, l)
-                    self.apply_bs(st, pl["l"], pl["p"][0]["downcast"], (self.name(l), 0))
+                    self.bs_arm(st, rec, pl["p"][0]["downcast"])
+                    self.bs_position(st, rec, (self.name(l), 0))
+                    return
+                if pl and pl["l"] in st.sl and len(pl["p"]) == 2 and pl["p"][0] == "deref" and isinstance(pl["p"][1], dict) and "index" in pl["p"][1]:
+                    base, lo, hi = st.sl[pl["l"]]
+                    il = pl["p"][1]["index"]
+                    if base == "I" and il in self.int_locals:
+                        pos = self.plus(st, lo, (self.name(il), 0))
+                        st.d.add(pos[0], hi[0], hi[1] - pos[1] - 1)
+                        self.havoc_int(st, l)
+                        self.read_I(st, pos, (self.name(l), 0))
+                        return
+                if pl and pl["p"] == ["deref"] and pl["l"] in st.selem and st.selem[pl["l"]][0] == "I":
+                    self.havoc_int(st, l)
+                    self.read_I(st, st.selem[pl["l"]][1], (self.name(l), 0))
                     return
             if rv["k"] == "binop" and rv["op"] in ("Add", "Sub"):
                 aa, cc = self.term(rv["a"]), self.term(rv["b"])
@@ -643,7 +848,7 @@ class BulkProof:
                 st.refint[l] = (self.name(base), 0)
                 return
             if all(x == "deref" for x in pp):
-                for m in (st.sl, st.elem, st.subview, st.val, st.refint, st.bconst, st.itm, st.selem, st.bs, st.clos):
+                for m in (st.sl, st.elem, st.subview, st.val, st.refint, st.bconst, st.itm, st.selem, st.bs, st.bsbool, st.clos):
                     if base in m:
                         m[l] = m[base]
                 if k == "use" and not pp and base in st.ordcmp:
@@ -667,42 +872,78 @@ class BulkProof:
                 return
 
     # ---------------------------------------------------------------- binary search contract
-    def apply_bs(self, st, res, arm, svar):
-        base, lo, hi, needle = st.bs[res]
-        if base != "I":
+    def read_I(self, st, pos, x):
+        """integer variable x := I[pos]"""
+        T, J = ("T", 0), ("J", 0)
+        for (lo, hi, rel, u, off) in list(st.ifacts):
+            if off is None and st.le(lo, pos) and st.lt(pos, hi):
+                refine_terms(st.d, {"LT": "Lt", "LE": "Le", "EQ": "Eq", "GT": "Gt", "GE": "Ge"}[rel], x, u, True)
+        st.ifacts.add((pos, tadd(pos, 1), "EQ", x, None))
+        if st.eq(pos, T) and st.jknown and st.shiftT is None:
+            refine_terms(st.d, "Eq", x, J, True)
+
+    def bs_position(self, st, rec, svar):
+        """svar holds the position reported by the search (payload of Ok or of Err)"""
+        if rec["base"] != "I":
+            return
+        lo, hi, needle = rec["lo"], rec["hi"], rec["needle"]
+        if rec["p"] is not None:
+            refine_terms(st.d, "Eq", svar, (rec["p"][0], rec["p"][1] - lo[1]), True)
             return
         if not self.sorted_range(st, lo, hi):
             raise Fail("binary_search on a range that is not known to be strictly increasing")
         if lo[0] != "Z":
             raise Fail("binary_search on a sub-slice with a symbolic start is not modelled")
         p = (svar[0], svar[1] + lo[1])
+        rec["p"] = p
         st.d.add(lo[0], p[0], p[1] - lo[1])                       # lo ≤ p
-        if arm == "Ok":
-            st.d.add(p[0], hi[0], hi[1] - p[1] - 1)               # p < hi
-            st.ifacts |= {(lo, p, "LT", needle, None), (p, tadd(p, 1), "EQ", needle, None), (tadd(p, 1), hi, "GT", needle, None)}
-        else:
-            st.d.add(p[0], hi[0], hi[1] - p[1])                   # p ≤ hi
-            st.ifacts |= {(lo, p, "LT", needle, None), (p, hi, "GT", needle, None)}
-        T = ("T", 0)
-        J = ("J", 0)
+        st.d.add(p[0], hi[0], hi[1] - p[1])                       # p ≤ hi
+        st.ifacts |= {(lo, p, "LT", needle, None), (tadd(p, 1), hi, "GT", needle, None)}
+        T, J = ("T", 0), ("J", 0)
         if st.lt(T, lo) or st.le(hi, T):
-            return
-        if not (st.le(lo, T) and st.lt(T, hi)):
+            rec["T"] = "out"
+        elif not (st.le(lo, T) and st.lt(T, hi)):
             raise Fail("position of the representative relative to the searched range is undecided")
-        st.case_used = True
-        case = self.tcase
-        rel = None
-        if case == "lt":
-            st.d.add(T[0], p[0], p[1] - 1)
-            rel = "Lt"
-        elif case == "eq":
-            st.d.add(T[0], p[0], p[1])
-            st.d.add(p[0], T[0], -p[1])
-            rel = "Eq" if arm == "Ok" else "Gt"
         else:
-            st.d.add(p[0], T[0], -p[1] - 1)
+            st.case_used = True
+            rec["T"] = self.tcase
+            rel = None
+            if self.tcase == "lt":
+                st.d.add(T[0], p[0], p[1] - 1)
+                rel = "Lt"
+            elif self.tcase == "eq":
+                st.d.add(T[0], p[0], p[1])
+                st.d.add(p[0], T[0], -p[1])
+            else:
+                st.d.add(p[0], T[0], -p[1] - 1)
+                rel = "Gt"
+            if rel and st.jknown and st.shiftT is None:
+                refine_terms(st.d, rel, J, needle, True)
+        if rec["arm"] is not None:
+            self._bs_arm_facts(st, rec)
+
+    def bs_arm(self, st, rec, arm):
+        if rec["arm"] is not None:
+            if rec["arm"] != arm:
+                st.d.bottom = True
+            return
+        rec["arm"] = arm
+        if rec["p"] is not None:
+            self._bs_arm_facts(st, rec)
+
+    def _bs_arm_facts(self, st, rec):
+        if rec["base"] != "I":
+            return
+        p, hi, needle = rec["p"], rec["hi"], rec["needle"]
+        J = ("J", 0)
+        if rec["arm"] == "Ok":
+            st.d.add(p[0], hi[0], hi[1] - p[1] - 1)               # p < hi
+            st.ifacts.add((p, tadd(p, 1), "EQ", needle, None))
+            rel = "Eq"
+        else:
+            st.ifacts.add((p, hi, "GT", needle, None))
             rel = "Gt"
-        if st.jknown and st.shiftT is None:
+        if rec.get("T") == "eq" and st.jknown and st.shiftT is None:
             refine_terms(st.d, rel, J, needle, True)
 
     # ---------------------------------------------------------------- switches
@@ -725,7 +966,21 @@ class BulkProof:
             return
         src = st.discr_of.get(dl, dl)
         if src in st.bs:
-            return           # the arm is read from the downcast projection
+            if len(taken) == 1 and not other:
+                self.bs_arm(st, st.bs[src], "Ok" if taken[0] == 0 else "Err")
+            elif other:
+                rest = [x for x in (0, 1) if x not in [v for v, _ in arms]]
+                if len(rest) == 1:
+                    self.bs_arm(st, st.bs[src], "Ok" if rest[0] == 0 else "Err")
+            return
+        if dl in st.bsbool:
+            rec, arm_true = st.bsbool[dl]
+            f = [tgt for v, tgt in arms if v == 0]
+            ftgt = f[0] if f else None
+            truth = True if (other and nxt != ftgt) else (False if nxt == ftgt else None)
+            if truth is not None:
+                self.bs_arm(st, rec, arm_true if truth else ("Err" if arm_true == "Ok" else "Ok"))
+            return
         if src in st.ordcmp:
             a, c = st.ordcmp[src]
             vals = [(-1 if v in (255, 65535, 4294967295, 18446744073709551615) else v) for v, _ in arms]
@@ -866,7 +1121,16 @@ class BulkProof:
             nd = st.refint.get(als[1])
             if nd is None:
                 raise Fail("binary_search needle not modelled")
-            st.bs[dl] = (sl0[0], sl0[1], sl0[2], nd)
+            st.bs[dl] = dict(base=sl0[0], lo=sl0[1], hi=sl0[2], needle=nd, p=None, arm=None)
+            return
+        if nm in ("is_ok", "is_err") and als and als[0] in st.bs and dl is not None:
+            st.bsbool[dl] = (st.bs[als[0]], "Ok" if nm == "is_ok" else "Err")
+            return
+        if nm in ("unwrap_or_else", "map_or_else", "unwrap_or_default") and als and als[0] in st.bs and int_dst:
+            ident = nm == "unwrap_or_else" and len(als) == 2 and self.closure_identity(st, als[1], t["args"][1])
+            self.havoc_int(st, dl)
+            if ident:
+                self.bs_position(st, st.bs[als[0]], (self.name(dl), 0))
             return
         if nm in ("split_at_mut", "split_at") and sl0 is not None and len(t["args"]) == 2:
             mid = self.term(t["args"][1])
@@ -896,6 +1160,12 @@ class BulkProof:
         if nm in ("iter_mut",) and sl0 is not None:
             st.itm[dl] = sl0
             return
+        if nm == "into_iter" and als and als[0] in st.itm:
+            st.itm[dl] = st.itm[als[0]]
+            return
+        if nm == "into_iter" and sl0 is not None and t["arg_tys"] and t["arg_tys"][0].startswith("&mut "):
+            st.itm[dl] = sl0
+            return
         if nm == "for_each" and als and als[0] in st.itm and len(t["args"]) == 2:
             base, lo, hi = st.itm[als[0]]
             cl = st.clos.get(als[1])
@@ -911,17 +1181,7 @@ class BulkProof:
                             by = (av[1][0], av[1][1] - const)
                     else:
                         by = ("Z", -const)
-            if base == "V":
-                if not (st.lt(("T", 0), lo) or st.le(hi, ("T", 0))):
-                    st.vT = None
-                return
-            if by is None:
-                self.havoc_I(st, lo, hi)
-                self.notes.append("for_each closure over the index slice is not a rebasing by a captured amount: range havocked")
-                return
-            if not self.icovers(st, lo, hi, "GE", by, None):
-                raise Fail("rebasing `*x -= c` may wrap below zero: not every index in the range is known ≥ c")
-            self.shift_I(st, lo, hi, by)
+            self.rebase(st, base, lo, hi, by)
             return
 
         # ---- the recursive call: induction hypothesis
@@ -1026,6 +1286,12 @@ class BulkProof:
         for idx, bb in enumerate(blocks):
             nxt = blocks[idx + 1] if idx + 1 < len(blocks) else None
             blk = b.blocks[bb]
+            if bb in self.loops:
+                for s in blk["stmts"]:
+                    if s["k"] == "assign" and not (s["rv"]["k"] == "ref" and s["rv"].get("mut")):
+                        self.assign(st, s["dst"], s["rv"])
+                self.apply_loop(st, self.loops[bb])
+                continue
             for s in blk["stmts"]:
                 if s["k"] == "assign":
                     self.assign(st, s["dst"], s["rv"])
@@ -1052,7 +1318,8 @@ class BulkProof:
         return st
 
     def prove(self):
-        paths = enumerate_paths(self.b)
+        self.loops = self.find_map_loops()
+        paths = enumerate_paths(self.b, loop_exits={h: lp["exit"] for h, lp in self.loops.items()})
         results = []
         for pi in paths:
             for tcase in ("lt", "eq", "gt"):
